@@ -97,6 +97,13 @@ def var_py(x: int, nparams: int, is_method: bool) -> str:
     return f"p{x}" if x < nparams else f"v{x - nparams}"
 
 
+BOOL_METH = 9           # Lang.lean `boolMeth`: the method id that stands for `__bool__`
+
+
+def meth_py(m: int) -> str:
+    return "__bool__" if m == BOOL_METH else f"m{m}"
+
+
 def str_py(codes) -> str:
     return repr("".join(chr(c) for c in codes))
 
@@ -116,7 +123,7 @@ class PyEmit:
         if t == "noneLit": return "None"
         if t == "var": return self.v(e[1])
         if t == "attr": return f"{self.e(e[1])}.a{e[2]}"
-        if t == "callM": return f"{self.e(e[1])}.m{e[2]}({', '.join(self.e(a) for a in e[3])})"
+        if t == "callM": return f"{self.e(e[1])}.{meth_py(e[2])}({', '.join(self.e(a) for a in e[3])})"
         if t == "callF": return f"f{e[1]}({', '.join(self.e(a) for a in e[2])})"
         if t == "new": return f"K{e[1]}({', '.join(self.e(a) for a in e[2])})"
         if t == "isinst": return f"isinstance({self.v(e[1])}, K{e[2]})"
@@ -209,7 +216,7 @@ def to_python(p: Prog) -> str:
         else:
             out.append("        pass")
         for m, fd in cd.methods:
-            func_py(fd, f"m{m}", c, "    ", out)
+            func_py(fd, meth_py(m), c, "    ", out)
     for i, fd in enumerate(p.funcs):
         func_py(fd, f"f{i}", None, "", out)
     return "\n".join(out) + "\n"
